@@ -116,6 +116,11 @@ type Exec struct {
 	dry         int
 	unrolled    int
 	symArrCtr   int
+	symStack    map[string]int
+	sliceCells  map[string]*Cell // backing arrays of slices held by region objects, by owner identity
+	recDepth    int
+	entryMark   int          // cells with id <= entryMark existed at entry of the function under contract
+	regionIDs   map[int]bool // ids of object-region cells
 	instKeys    map[*State]map[string]bool
 	zeroArrays  map[string]types.Type
 	iters       map[*Cell]*rangeIter
@@ -274,8 +279,20 @@ func (x *Exec) symValue(st *State, t types.Type, name string) Value {
 		}
 		return &Tuple{typ: t, el: el}
 	case *types.Pointer:
+		k := types.TypeString(u.Elem(), nil)
+		if x.symStack[k] > 0 {
+			// a link of a recursive structure: an unknown, possibly nil, object of the region
+			id := freshVar(name+"$id", SInt)
+			st.axiom(mkLe(mkInt(0), id))
+			return &Ptr{cell: x.regionCell(u.Elem()), sym: id, mayNil: true}
+		}
+		if x.symStack == nil {
+			x.symStack = map[string]int{}
+		}
+		x.symStack[k]++
 		c := newCell(name, u.Elem())
 		st.store[c] = x.symValue(st, u.Elem(), name)
+		x.symStack[k]--
 		return &Ptr{cell: c}
 	case *types.Signature:
 		return &Func{abs: &AbsFun{name: sanitize(name), sig: u}}
@@ -316,9 +333,84 @@ func (x *Exec) newAbsObj(st *State, t types.Type, name string, dim int) *AbsObj 
 //-----------------------------------------------------------------------------
 // memory
 
+// escape: a pointer to a freshly allocated object is about to be stored into a
+// symbolic array. The object moves into its type's symbolic region (fresh
+// identity, distinct from nil and from the other moved objects) so that the
+// array holds pointers of one shape; the old cell forwards to it. Identities
+// are labels: only equality between them and with nil (0) is ever observed.
+func (x *Exec) escape(st *State, v Value) Value {
+	switch t := v.(type) {
+	case *Tuple:
+		var el []Value
+		for i, e := range t.el {
+			ne := x.escape(st, e)
+			if ne != e && el == nil {
+				el = append([]Value{}, t.el...)
+			}
+			if el != nil {
+				el[i] = ne
+			}
+		}
+		if el != nil {
+			return &Tuple{typ: t.typ, el: el}
+		}
+		return v
+	case *Ptr:
+		if t.cell == nil || t.sym != nil || len(t.path) != 0 || x.regionIDs[t.cell.id] {
+			return v
+		}
+		if t.cell.typ == nil || !regionable(t.cell.typ) || foreignType(t.cell.typ) {
+			return v
+		}
+		cur, ok := st.store[t.cell]
+		if !ok {
+			return v
+		}
+		if fw, ok := cur.(*Fwd); ok {
+			return fw.to
+		}
+		if _, ok := cur.(*Tuple); !ok {
+			return v
+		}
+		content := x.escape(st, cur)
+		// identities of objects that exist already (inputs, earlier iterations of a cut loop)
+		// are positive and nil is 0: a negative constant is a fresh identity, distinct from all
+		// of them and from the other objects allocated on this path
+		st.nalloc++
+		id := mkInt(int64(-st.nalloc))
+		rp := &Ptr{cell: x.regionCell(t.cell.typ), sym: id}
+		x.storeTo(st, rp, content)
+		st.store[t.cell] = &Fwd{to: rp}
+		return rp
+	}
+	return v
+}
+
+// derefCheck: a possibly-nil region pointer is dereferenced. Under a safety
+// contract that is an obligation; otherwise the path continues with the pointer
+// non-nil (a nil dereference panics, and the contracts speak about returns).
+func (x *Exec) derefCheck(st *State, fr *Frame, p *Ptr, pos token.Pos) {
+	if p == nil || !p.mayNil || p.sym == nil {
+		return
+	}
+	if x.specMode > 0 {
+		return
+	}
+	nz := mkNot(mkEq(p.sym, mkInt(0)))
+	if x.safety && fr != nil {
+		x.oblige(st, "safety.nil@"+x.posTag(pos, fr), nz, "nil dereference")
+	}
+	st.assume(nz)
+}
+
 func (x *Exec) load(st *State, p *Ptr) Value {
 	if p.cell == nil {
 		fail("nil pointer dereference")
+	}
+	if p.mayNil && p.sym != nil && x.specMode == 0 {
+		// executing code: a nil dereference panics, the path continues only for a non-nil
+		// pointer (specification expressions read an arbitrary value through nil instead)
+		st.assume(mkNot(mkEq(p.sym, mkInt(0))))
 	}
 	v, ok := st.store[p.cell]
 	if !ok {
@@ -329,6 +421,12 @@ func (x *Exec) load(st *State, p *Ptr) Value {
 		} else {
 			fail("load from unknown cell %s", p.cell.name)
 		}
+	}
+	if fw, ok := v.(*Fwd); ok {
+		if p.sym != nil {
+			fail("symbolic index into an object that moved to its region")
+		}
+		return x.load(st, &Ptr{cell: fw.to.cell, sym: fw.to.sym, path: p.path})
 	}
 	if sa, ok := v.(*SymArr); ok {
 		return x.symArrLoad(st, sa, p)
@@ -364,6 +462,10 @@ func (x *Exec) regionCell(t types.Type) *Cell {
 	}
 	c := newCell("region$"+k, types.NewArray(t, -1))
 	x.regions[k] = c
+	if x.regionIDs == nil {
+		x.regionIDs = map[int]bool{}
+	}
+	x.regionIDs[c.id] = true
 	x.gstate.store[c] = &SymArr{elem: t, name: "heap_" + sanitize(k)}
 	return c
 }
@@ -392,7 +494,17 @@ func (x *Exec) storeTo(st *State, p *Ptr, nv Value) {
 			fail("store to unknown cell %s", p.cell.name)
 		}
 	}
+	if fw, ok := v.(*Fwd); ok {
+		if p.sym != nil {
+			fail("symbolic index into an object that moved to its region")
+		}
+		x.storeTo(st, &Ptr{cell: fw.to.cell, sym: fw.to.sym, path: p.path}, nv)
+		return
+	}
 	if sa, ok := v.(*SymArr); ok {
+		if len(p.path) == 0 {
+			nv = x.escape(st, nv)
+		}
 		st.store[p.cell] = x.symArrStore(st, sa, p, nv)
 	} else if p.sym != nil {
 		pre, off, suf := splitSymPath(p.path)
@@ -438,30 +550,59 @@ func (x *Exec) symArrElem(st *State, sa *SymArr, idx *Term) Value {
 	if et, ok := x.zeroArrays[sa.name]; ok {
 		return zeroValue(et)
 	}
-	return x.symLeaf(st, sa.elem, sa.name, idx)
+	return x.symLeaf(st, sa.elem, sa.name, idx, sa.pre...)
 }
 
-func (x *Exec) symLeaf(st *State, t types.Type, name string, idx *Term) Value {
+func (x *Exec) symLeaf(st *State, t types.Type, name string, idx *Term, pre ...*Term) Value {
+	sargs := append(append([]*Term{}, pre...), idx)
 	if d := isSDFIface(t); d != 0 {
 		fail("symbolic array of shapes needs element abstraction (use concrete operand count)")
 	}
 	switch u := t.Underlying().(type) {
 	case *types.Basic:
 		if s, ok := sortOf(t); ok {
-			v := x.ufApp(st, "sel_"+name, s, []*Term{idx})
+			v := x.ufApp(st, "sel_"+name, s, sargs)
 			if s == SInt {
 				rangeAxiom(st, v, t)
 			}
 			return v
 		}
 		if u.Info()&types.IsString != 0 {
-			return &Str{sym: x.ufApp(st, "sel_"+name+"$str", SInt, []*Term{idx})}
+			return &Str{sym: x.ufApp(st, "sel_"+name+"$str", SInt, sargs)}
+		}
+	case *types.Slice:
+		if strings.HasPrefix(name, "heap_") {
+			// a slice held by an object of a symbolic region: length, capacity, nil-ness and
+			// elements are functions of the object's identity; the backing array is read-only
+			ln := x.ufApp(st, "sel_"+name+"$len", SInt, sargs)
+			cp := x.ufApp(st, "sel_"+name+"$cap", SInt, sargs)
+			nl := x.ufApp(st, "sel_"+name+"$isnil", SBool, sargs)
+			st.axiom(mkAnd(mkLe(mkInt(0), ln), mkLe(ln, cp), mkImplies(nl, mkAnd(mkEq(ln, mkInt(0)), mkEq(cp, mkInt(0))))))
+			var kb strings.Builder
+			kb.WriteString(name)
+			for _, a := range sargs {
+				fmt.Fprintf(&kb, ",%d", a.id)
+			}
+			if x.sliceCells == nil {
+				x.sliceCells = map[string]*Cell{}
+			}
+			c := x.sliceCells[kb.String()]
+			if c == nil {
+				c = newCell(name+"$arr", types.NewArray(u.Elem(), -1))
+				x.sliceCells[kb.String()] = c
+			}
+			if _, ok := st.store[c]; !ok {
+				st.store[c] = &SymArr{elem: u.Elem(), name: name + "$arr", pre: sargs, ro: true}
+			}
+			return &SliceV{cell: c, off: mkInt(0), len: ln, cap: cp, elem: u.Elem(), named: t, nilT: nl}
 		}
 	case *types.Pointer:
-		id := x.ufApp(st, "sel_"+name+"$ptr", SInt, []*Term{idx})
+		id := x.ufApp(st, "sel_"+name+"$ptr", SInt, sargs)
 		if _, isStruct := u.Elem().Underlying().(*types.Struct); isStruct || isArrayType(u.Elem()) {
 			if !foreignType(u.Elem()) {
-				// unknown objects of a module type live in one symbolic region indexed by identity
+				// unknown objects of a module type live in one symbolic region indexed by identity;
+				// pointers stored in symbolic aggregates are taken to be non-nil (identity 0 is nil)
+				st.axiom(mkLe(mkInt(1), id))
 				return &Ptr{cell: x.regionCell(u.Elem()), sym: id}
 			}
 		}
@@ -469,18 +610,18 @@ func (x *Exec) symLeaf(st *State, t types.Type, name string, idx *Term) Value {
 	case *types.Struct:
 		el := make([]Value, u.NumFields())
 		for i := range el {
-			el[i] = x.symLeaf(st, u.Field(i).Type(), name+"."+u.Field(i).Name(), idx)
+			el[i] = x.symLeaf(st, u.Field(i).Type(), name+"."+u.Field(i).Name(), idx, pre...)
 		}
 		return &Tuple{typ: t, el: el}
 	case *types.Array:
 		el := make([]Value, u.Len())
 		for i := range el {
-			el[i] = x.symLeaf(st, u.Elem(), fmt.Sprintf("%s.%d", name, i), idx)
+			el[i] = x.symLeaf(st, u.Elem(), fmt.Sprintf("%s.%d", name, i), idx, pre...)
 		}
 		return &Tuple{typ: t, el: el}
 	}
 	// interfaces, slices, maps inside symbolic aggregates: not modelled structurally
-	return &Opaque{typ: t, tag: "elem$" + name, id: x.ufApp(st, "sel_"+name+"$opq", SInt, []*Term{idx})}
+	return &Opaque{typ: t, tag: "elem$" + name, id: x.ufApp(st, "sel_"+name+"$opq", SInt, sargs)}
 }
 
 func (x *Exec) symArrLoad(st *State, sa *SymArr, p *Ptr) Value {
@@ -528,7 +669,10 @@ func (x *Exec) symArrStore(st *State, sa *SymArr, p *Ptr, nv Value) *SymArr {
 		old := x.symArrLoad(st, sa, &Ptr{cell: p.cell, sym: p.sym})
 		full = setPath(old, p.path, nv)
 	}
-	n := &SymArr{elem: sa.elem, name: sa.name}
+	if sa.ro {
+		fail("store into the backing array of a slice held by a symbolic object (%s) is not modelled", sa.name)
+	}
+	n := &SymArr{elem: sa.elem, name: sa.name, pre: sa.pre}
 	n.writes = append(append([]symWrite{}, sa.writes...), symWrite{idx: p.sym, val: full})
 	return n
 }
@@ -1123,6 +1267,7 @@ func (x *Exec) runInstrs(st *State, fr *Frame, b *ssa.BasicBlock, idx int, prev 
 			fr.regs[in] = x.unop(st, fr, in)
 		case *ssa.FieldAddr:
 			p := x.ptr(fr, in.X)
+			x.derefCheck(st, fr, p, in.Pos())
 			if p.cell == nil {
 				if x.safety {
 					x.oblige(st, "safety.nil@"+x.posTag(in.Pos(), fr), tFalse, "nil dereference")
